@@ -313,8 +313,17 @@ def decide(name, h, opts):
             res["detail"] = "unwinding bound too small: %s" % cex["location"]
         else:
             # formula slicing drops the ND_LOG writes from the trace: get the values from an unsliced run
-            base = [a for a in extra + sel + [goto, "--stop-on-fail", "--trace"]]
-            st2, text2, dt2 = run_cbmc(base, timeout, mem, slice_formula=False)
+            # select only the violated property (matched by description / function / line) so that the
+            # unsliced formula stays as small as possible; allow it twice the memory
+            only = []
+            for p in asserts:
+                loc = p.get("sourceLocation", {})
+                if p.get("description", "").strip('"') == cex["description"].strip('"') \
+                        and ("function %s " % loc.get("function", "?")) in (cex["location"] + " ") \
+                        and ("line %s " % loc.get("line", "?")) in (cex["location"] + " "):
+                    only += ["--property", p["name"]]
+            base = [a for a in extra + (only or sel) + [goto, "--stop-on-fail", "--trace"]]
+            st2, text2, dt2 = run_cbmc(base, timeout, min(2 * mem, 48.0), slice_formula=False)
             res["queries"] += 1
             res["solver_s"] += dt2
             if st2 == "FAILED":
